@@ -303,367 +303,367 @@ pub fn h_c01_multi_lookup_scopes() {
 }
 
 // ==== generated harness list (tools/gen/gen_c01.py) ====
-// @h tier=quick bound="depth 1, A present per scope (bottom..top) 0, B in the bottom scope; op reads; all stored values and arguments" unwind=4
+// @h tier=quick bound="depth 1, A present per scope (bottom..top) 0, B in the bottom scope; op reads; all stored values and arguments" unwind=4 mem=6 reclimit="mahf::state::(registry::)?StateRegistry::<.*>::find(_mut)?::<.*>=3"
 h!(h_c01_reads_d1_0, 1, [false, false, false], 0, 4);
-// @h tier=quick bound="depth 1, A present per scope (bottom..top) 0, B in the bottom scope; op insert; all stored values and arguments" unwind=4
+// @h tier=quick bound="depth 1, A present per scope (bottom..top) 0, B in the bottom scope; op insert; all stored values and arguments" unwind=4 mem=6 reclimit="mahf::state::(registry::)?StateRegistry::<.*>::find(_mut)?::<.*>=3"
 h!(h_c01_insert_d1_0, 1, [false, false, false], 1, 4);
-// @h tier=quick bound="depth 1, A present per scope (bottom..top) 0, B in the bottom scope; op remove; all stored values and arguments" unwind=4
+// @h tier=quick bound="depth 1, A present per scope (bottom..top) 0, B in the bottom scope; op remove; all stored values and arguments" unwind=4 mem=6 reclimit="mahf::state::(registry::)?StateRegistry::<.*>::find(_mut)?::<.*>=3"
 h!(h_c01_remove_d1_0, 1, [false, false, false], 2, 4);
-// @h tier=quick bound="depth 1, A present per scope (bottom..top) 0, B in the bottom scope; op set_value; all stored values and arguments" unwind=4
+// @h tier=quick bound="depth 1, A present per scope (bottom..top) 0, B in the bottom scope; op set_value; all stored values and arguments" unwind=4 mem=6 reclimit="mahf::state::(registry::)?StateRegistry::<.*>::find(_mut)?::<.*>=3"
 h!(h_c01_set_value_d1_0, 1, [false, false, false], 3, 4);
-// @h tier=quick bound="depth 1, A present per scope (bottom..top) 0, B in the bottom scope; op get_mut; all stored values and arguments" unwind=4
+// @h tier=quick bound="depth 1, A present per scope (bottom..top) 0, B in the bottom scope; op get_mut; all stored values and arguments" unwind=4 mem=6 reclimit="mahf::state::(registry::)?StateRegistry::<.*>::find(_mut)?::<.*>=3"
 h!(h_c01_get_mut_d1_0, 1, [false, false, false], 4, 4);
-// @h tier=quick bound="depth 1, A present per scope (bottom..top) 0, B in the bottom scope; op and_modify_or_insert; all stored values and arguments" unwind=4
+// @h tier=quick bound="depth 1, A present per scope (bottom..top) 0, B in the bottom scope; op and_modify_or_insert; all stored values and arguments" unwind=4 mem=6 reclimit="mahf::state::(registry::)?StateRegistry::<.*>::find(_mut)?::<.*>=3"
 h!(h_c01_and_modify_or_insert_d1_0, 1, [false, false, false], 5, 4);
-// @h tier=quick bound="depth 1, A present per scope (bottom..top) 0, B in the bottom scope; op or_insert_with; all stored values and arguments" unwind=4
+// @h tier=quick bound="depth 1, A present per scope (bottom..top) 0, B in the bottom scope; op or_insert_with; all stored values and arguments" unwind=4 mem=6 reclimit="mahf::state::(registry::)?StateRegistry::<.*>::find(_mut)?::<.*>=3"
 h!(h_c01_or_insert_with_d1_0, 1, [false, false, false], 6, 4);
-// @h tier=quick bound="depth 1, A present per scope (bottom..top) 0, B in the bottom scope; op or_default; all stored values and arguments" unwind=4
+// @h tier=quick bound="depth 1, A present per scope (bottom..top) 0, B in the bottom scope; op or_default; all stored values and arguments" unwind=4 mem=6 reclimit="mahf::state::(registry::)?StateRegistry::<.*>::find(_mut)?::<.*>=3"
 h!(h_c01_or_default_d1_0, 1, [false, false, false], 7, 4);
-// @h tier=quick bound="depth 1, A present per scope (bottom..top) 0, B in the bottom scope; op entry_insert; all stored values and arguments" unwind=4
+// @h tier=quick bound="depth 1, A present per scope (bottom..top) 0, B in the bottom scope; op entry_insert; all stored values and arguments" unwind=4 mem=6 reclimit="mahf::state::(registry::)?StateRegistry::<.*>::find(_mut)?::<.*>=3"
 h!(h_c01_entry_insert_d1_0, 1, [false, false, false], 8, 4);
-// @h tier=quick bound="depth 1, A present per scope (bottom..top) 0, B in the bottom scope; op entry_remove; all stored values and arguments" unwind=4
+// @h tier=quick bound="depth 1, A present per scope (bottom..top) 0, B in the bottom scope; op entry_remove; all stored values and arguments" unwind=4 mem=6 reclimit="mahf::state::(registry::)?StateRegistry::<.*>::find(_mut)?::<.*>=3"
 h!(h_c01_entry_remove_d1_0, 1, [false, false, false], 9, 4);
-// @h tier=quick bound="depth 1, A present per scope (bottom..top) 0, B in the bottom scope; op entry_access; all stored values and arguments" unwind=4
+// @h tier=quick bound="depth 1, A present per scope (bottom..top) 0, B in the bottom scope; op entry_access; all stored values and arguments" unwind=4 mem=6 reclimit="mahf::state::(registry::)?StateRegistry::<.*>::find(_mut)?::<.*>=3"
 h!(h_c01_entry_access_d1_0, 1, [false, false, false], 10, 4);
-// @h tier=quick bound="depth 1, A present per scope (bottom..top) 0, B in the bottom scope; op push_scope; all stored values and arguments" unwind=4
+// @h tier=quick bound="depth 1, A present per scope (bottom..top) 0, B in the bottom scope; op push_scope; all stored values and arguments" unwind=4 mem=6 reclimit="mahf::state::(registry::)?StateRegistry::<.*>::find(_mut)?::<.*>=3"
 h!(h_c01_push_scope_d1_0, 1, [false, false, false], 11, 4);
-// @h tier=quick bound="depth 1, A present per scope (bottom..top) 0, B in the bottom scope; op and_modify_value; all stored values and arguments" unwind=4
+// @h tier=quick bound="depth 1, A present per scope (bottom..top) 0, B in the bottom scope; op and_modify_value; all stored values and arguments" unwind=4 mem=6 reclimit="mahf::state::(registry::)?StateRegistry::<.*>::find(_mut)?::<.*>=3"
 h!(h_c01_and_modify_value_d1_0, 1, [false, false, false], 12, 4);
-// @h tier=thorough bound="depth 1, A present per scope (bottom..top) 1, B in the bottom scope; op reads; all stored values and arguments" unwind=4
+// @h tier=thorough bound="depth 1, A present per scope (bottom..top) 1, B in the bottom scope; op reads; all stored values and arguments" unwind=4 mem=6 reclimit="mahf::state::(registry::)?StateRegistry::<.*>::find(_mut)?::<.*>=3"
 h!(h_c01_reads_d1_1, 1, [true, false, false], 0, 4);
-// @h tier=thorough bound="depth 1, A present per scope (bottom..top) 1, B in the bottom scope; op insert; all stored values and arguments" unwind=4
+// @h tier=thorough bound="depth 1, A present per scope (bottom..top) 1, B in the bottom scope; op insert; all stored values and arguments" unwind=4 mem=6 reclimit="mahf::state::(registry::)?StateRegistry::<.*>::find(_mut)?::<.*>=3"
 h!(h_c01_insert_d1_1, 1, [true, false, false], 1, 4);
-// @h tier=thorough bound="depth 1, A present per scope (bottom..top) 1, B in the bottom scope; op remove; all stored values and arguments" unwind=4
+// @h tier=thorough bound="depth 1, A present per scope (bottom..top) 1, B in the bottom scope; op remove; all stored values and arguments" unwind=4 mem=6 reclimit="mahf::state::(registry::)?StateRegistry::<.*>::find(_mut)?::<.*>=3"
 h!(h_c01_remove_d1_1, 1, [true, false, false], 2, 4);
-// @h tier=thorough bound="depth 1, A present per scope (bottom..top) 1, B in the bottom scope; op set_value; all stored values and arguments" unwind=4
+// @h tier=thorough bound="depth 1, A present per scope (bottom..top) 1, B in the bottom scope; op set_value; all stored values and arguments" unwind=4 mem=6 reclimit="mahf::state::(registry::)?StateRegistry::<.*>::find(_mut)?::<.*>=3"
 h!(h_c01_set_value_d1_1, 1, [true, false, false], 3, 4);
-// @h tier=thorough bound="depth 1, A present per scope (bottom..top) 1, B in the bottom scope; op get_mut; all stored values and arguments" unwind=4
+// @h tier=thorough bound="depth 1, A present per scope (bottom..top) 1, B in the bottom scope; op get_mut; all stored values and arguments" unwind=4 mem=6 reclimit="mahf::state::(registry::)?StateRegistry::<.*>::find(_mut)?::<.*>=3"
 h!(h_c01_get_mut_d1_1, 1, [true, false, false], 4, 4);
-// @h tier=thorough bound="depth 1, A present per scope (bottom..top) 1, B in the bottom scope; op and_modify_or_insert; all stored values and arguments" unwind=4
+// @h tier=thorough bound="depth 1, A present per scope (bottom..top) 1, B in the bottom scope; op and_modify_or_insert; all stored values and arguments" unwind=4 mem=6 reclimit="mahf::state::(registry::)?StateRegistry::<.*>::find(_mut)?::<.*>=3"
 h!(h_c01_and_modify_or_insert_d1_1, 1, [true, false, false], 5, 4);
-// @h tier=thorough bound="depth 1, A present per scope (bottom..top) 1, B in the bottom scope; op or_insert_with; all stored values and arguments" unwind=4
+// @h tier=thorough bound="depth 1, A present per scope (bottom..top) 1, B in the bottom scope; op or_insert_with; all stored values and arguments" unwind=4 mem=6 reclimit="mahf::state::(registry::)?StateRegistry::<.*>::find(_mut)?::<.*>=3"
 h!(h_c01_or_insert_with_d1_1, 1, [true, false, false], 6, 4);
-// @h tier=thorough bound="depth 1, A present per scope (bottom..top) 1, B in the bottom scope; op or_default; all stored values and arguments" unwind=4
+// @h tier=thorough bound="depth 1, A present per scope (bottom..top) 1, B in the bottom scope; op or_default; all stored values and arguments" unwind=4 mem=6 reclimit="mahf::state::(registry::)?StateRegistry::<.*>::find(_mut)?::<.*>=3"
 h!(h_c01_or_default_d1_1, 1, [true, false, false], 7, 4);
-// @h tier=thorough bound="depth 1, A present per scope (bottom..top) 1, B in the bottom scope; op entry_insert; all stored values and arguments" unwind=4
+// @h tier=thorough bound="depth 1, A present per scope (bottom..top) 1, B in the bottom scope; op entry_insert; all stored values and arguments" unwind=4 mem=6 reclimit="mahf::state::(registry::)?StateRegistry::<.*>::find(_mut)?::<.*>=3"
 h!(h_c01_entry_insert_d1_1, 1, [true, false, false], 8, 4);
-// @h tier=thorough bound="depth 1, A present per scope (bottom..top) 1, B in the bottom scope; op entry_remove; all stored values and arguments" unwind=4
+// @h tier=thorough bound="depth 1, A present per scope (bottom..top) 1, B in the bottom scope; op entry_remove; all stored values and arguments" unwind=4 mem=6 reclimit="mahf::state::(registry::)?StateRegistry::<.*>::find(_mut)?::<.*>=3"
 h!(h_c01_entry_remove_d1_1, 1, [true, false, false], 9, 4);
-// @h tier=thorough bound="depth 1, A present per scope (bottom..top) 1, B in the bottom scope; op entry_access; all stored values and arguments" unwind=4
+// @h tier=thorough bound="depth 1, A present per scope (bottom..top) 1, B in the bottom scope; op entry_access; all stored values and arguments" unwind=4 mem=6 reclimit="mahf::state::(registry::)?StateRegistry::<.*>::find(_mut)?::<.*>=3"
 h!(h_c01_entry_access_d1_1, 1, [true, false, false], 10, 4);
-// @h tier=thorough bound="depth 1, A present per scope (bottom..top) 1, B in the bottom scope; op push_scope; all stored values and arguments" unwind=4
+// @h tier=thorough bound="depth 1, A present per scope (bottom..top) 1, B in the bottom scope; op push_scope; all stored values and arguments" unwind=4 mem=6 reclimit="mahf::state::(registry::)?StateRegistry::<.*>::find(_mut)?::<.*>=3"
 h!(h_c01_push_scope_d1_1, 1, [true, false, false], 11, 4);
-// @h tier=thorough bound="depth 1, A present per scope (bottom..top) 1, B in the bottom scope; op and_modify_value; all stored values and arguments" unwind=4
+// @h tier=thorough bound="depth 1, A present per scope (bottom..top) 1, B in the bottom scope; op and_modify_value; all stored values and arguments" unwind=4 mem=6 reclimit="mahf::state::(registry::)?StateRegistry::<.*>::find(_mut)?::<.*>=3"
 h!(h_c01_and_modify_value_d1_1, 1, [true, false, false], 12, 4);
-// @h tier=thorough bound="depth 2, A present per scope (bottom..top) 00, B in the bottom scope; op reads; all stored values and arguments" unwind=5
+// @h tier=thorough bound="depth 2, A present per scope (bottom..top) 00, B in the bottom scope; op reads; all stored values and arguments" unwind=5 mem=6 reclimit="mahf::state::(registry::)?StateRegistry::<.*>::find(_mut)?::<.*>=4"
 h!(h_c01_reads_d2_00, 2, [false, false, false], 0, 5);
-// @h tier=quick bound="depth 2, A present per scope (bottom..top) 00, B in the bottom scope; op insert; all stored values and arguments" unwind=5
+// @h tier=quick bound="depth 2, A present per scope (bottom..top) 00, B in the bottom scope; op insert; all stored values and arguments" unwind=5 mem=6 reclimit="mahf::state::(registry::)?StateRegistry::<.*>::find(_mut)?::<.*>=4"
 h!(h_c01_insert_d2_00, 2, [false, false, false], 1, 5);
-// @h tier=quick bound="depth 2, A present per scope (bottom..top) 00, B in the bottom scope; op remove; all stored values and arguments" unwind=5
+// @h tier=quick bound="depth 2, A present per scope (bottom..top) 00, B in the bottom scope; op remove; all stored values and arguments" unwind=5 mem=6 reclimit="mahf::state::(registry::)?StateRegistry::<.*>::find(_mut)?::<.*>=4"
 h!(h_c01_remove_d2_00, 2, [false, false, false], 2, 5);
-// @h tier=thorough bound="depth 2, A present per scope (bottom..top) 00, B in the bottom scope; op set_value; all stored values and arguments" unwind=5
+// @h tier=thorough bound="depth 2, A present per scope (bottom..top) 00, B in the bottom scope; op set_value; all stored values and arguments" unwind=5 mem=6 reclimit="mahf::state::(registry::)?StateRegistry::<.*>::find(_mut)?::<.*>=4"
 h!(h_c01_set_value_d2_00, 2, [false, false, false], 3, 5);
-// @h tier=thorough bound="depth 2, A present per scope (bottom..top) 00, B in the bottom scope; op get_mut; all stored values and arguments" unwind=5
+// @h tier=thorough bound="depth 2, A present per scope (bottom..top) 00, B in the bottom scope; op get_mut; all stored values and arguments" unwind=5 mem=6 reclimit="mahf::state::(registry::)?StateRegistry::<.*>::find(_mut)?::<.*>=4"
 h!(h_c01_get_mut_d2_00, 2, [false, false, false], 4, 5);
-// @h tier=quick bound="depth 2, A present per scope (bottom..top) 00, B in the bottom scope; op and_modify_or_insert; all stored values and arguments" unwind=5
+// @h tier=quick bound="depth 2, A present per scope (bottom..top) 00, B in the bottom scope; op and_modify_or_insert; all stored values and arguments" unwind=5 mem=12 reclimit="mahf::state::(registry::)?StateRegistry::<.*>::find(_mut)?::<.*>=4"
 h!(h_c01_and_modify_or_insert_d2_00, 2, [false, false, false], 5, 5);
-// @h tier=quick bound="depth 2, A present per scope (bottom..top) 00, B in the bottom scope; op or_insert_with; all stored values and arguments" unwind=5
+// @h tier=quick bound="depth 2, A present per scope (bottom..top) 00, B in the bottom scope; op or_insert_with; all stored values and arguments" unwind=5 mem=12 reclimit="mahf::state::(registry::)?StateRegistry::<.*>::find(_mut)?::<.*>=4"
 h!(h_c01_or_insert_with_d2_00, 2, [false, false, false], 6, 5);
-// @h tier=quick bound="depth 2, A present per scope (bottom..top) 00, B in the bottom scope; op or_default; all stored values and arguments" unwind=5
+// @h tier=quick bound="depth 2, A present per scope (bottom..top) 00, B in the bottom scope; op or_default; all stored values and arguments" unwind=5 mem=12 reclimit="mahf::state::(registry::)?StateRegistry::<.*>::find(_mut)?::<.*>=4"
 h!(h_c01_or_default_d2_00, 2, [false, false, false], 7, 5);
-// @h tier=quick bound="depth 2, A present per scope (bottom..top) 00, B in the bottom scope; op entry_insert; all stored values and arguments" unwind=5
+// @h tier=quick bound="depth 2, A present per scope (bottom..top) 00, B in the bottom scope; op entry_insert; all stored values and arguments" unwind=5 mem=12 reclimit="mahf::state::(registry::)?StateRegistry::<.*>::find(_mut)?::<.*>=4"
 h!(h_c01_entry_insert_d2_00, 2, [false, false, false], 8, 5);
-// @h tier=thorough bound="depth 2, A present per scope (bottom..top) 00, B in the bottom scope; op entry_remove; all stored values and arguments" unwind=5
+// @h tier=thorough bound="depth 2, A present per scope (bottom..top) 00, B in the bottom scope; op entry_remove; all stored values and arguments" unwind=5 mem=6 reclimit="mahf::state::(registry::)?StateRegistry::<.*>::find(_mut)?::<.*>=4"
 h!(h_c01_entry_remove_d2_00, 2, [false, false, false], 9, 5);
-// @h tier=thorough bound="depth 2, A present per scope (bottom..top) 00, B in the bottom scope; op entry_access; all stored values and arguments" unwind=5
+// @h tier=thorough bound="depth 2, A present per scope (bottom..top) 00, B in the bottom scope; op entry_access; all stored values and arguments" unwind=5 mem=6 reclimit="mahf::state::(registry::)?StateRegistry::<.*>::find(_mut)?::<.*>=4"
 h!(h_c01_entry_access_d2_00, 2, [false, false, false], 10, 5);
-// @h tier=thorough bound="depth 2, A present per scope (bottom..top) 00, B in the bottom scope; op push_scope; all stored values and arguments" unwind=5
+// @h tier=thorough bound="depth 2, A present per scope (bottom..top) 00, B in the bottom scope; op push_scope; all stored values and arguments" unwind=5 mem=6 reclimit="mahf::state::(registry::)?StateRegistry::<.*>::find(_mut)?::<.*>=4"
 h!(h_c01_push_scope_d2_00, 2, [false, false, false], 11, 5);
-// @h tier=thorough bound="depth 2, A present per scope (bottom..top) 00, B in the bottom scope; op and_modify_value; all stored values and arguments" unwind=5
+// @h tier=thorough bound="depth 2, A present per scope (bottom..top) 00, B in the bottom scope; op and_modify_value; all stored values and arguments" unwind=5 mem=6 reclimit="mahf::state::(registry::)?StateRegistry::<.*>::find(_mut)?::<.*>=4"
 h!(h_c01_and_modify_value_d2_00, 2, [false, false, false], 12, 5);
-// @h tier=thorough bound="depth 2, A present per scope (bottom..top) 01, B in the bottom scope; op reads; all stored values and arguments" unwind=5
+// @h tier=thorough bound="depth 2, A present per scope (bottom..top) 01, B in the bottom scope; op reads; all stored values and arguments" unwind=5 mem=6 reclimit="mahf::state::(registry::)?StateRegistry::<.*>::find(_mut)?::<.*>=4"
 h!(h_c01_reads_d2_01, 2, [false, true, false], 0, 5);
-// @h tier=thorough bound="depth 2, A present per scope (bottom..top) 01, B in the bottom scope; op insert; all stored values and arguments" unwind=5
+// @h tier=thorough bound="depth 2, A present per scope (bottom..top) 01, B in the bottom scope; op insert; all stored values and arguments" unwind=5 mem=6 reclimit="mahf::state::(registry::)?StateRegistry::<.*>::find(_mut)?::<.*>=4"
 h!(h_c01_insert_d2_01, 2, [false, true, false], 1, 5);
-// @h tier=thorough bound="depth 2, A present per scope (bottom..top) 01, B in the bottom scope; op remove; all stored values and arguments" unwind=5
+// @h tier=thorough bound="depth 2, A present per scope (bottom..top) 01, B in the bottom scope; op remove; all stored values and arguments" unwind=5 mem=6 reclimit="mahf::state::(registry::)?StateRegistry::<.*>::find(_mut)?::<.*>=4"
 h!(h_c01_remove_d2_01, 2, [false, true, false], 2, 5);
-// @h tier=thorough bound="depth 2, A present per scope (bottom..top) 01, B in the bottom scope; op set_value; all stored values and arguments" unwind=5
+// @h tier=thorough bound="depth 2, A present per scope (bottom..top) 01, B in the bottom scope; op set_value; all stored values and arguments" unwind=5 mem=6 reclimit="mahf::state::(registry::)?StateRegistry::<.*>::find(_mut)?::<.*>=4"
 h!(h_c01_set_value_d2_01, 2, [false, true, false], 3, 5);
-// @h tier=thorough bound="depth 2, A present per scope (bottom..top) 01, B in the bottom scope; op get_mut; all stored values and arguments" unwind=5
+// @h tier=thorough bound="depth 2, A present per scope (bottom..top) 01, B in the bottom scope; op get_mut; all stored values and arguments" unwind=5 mem=6 reclimit="mahf::state::(registry::)?StateRegistry::<.*>::find(_mut)?::<.*>=4"
 h!(h_c01_get_mut_d2_01, 2, [false, true, false], 4, 5);
-// @h tier=thorough bound="depth 2, A present per scope (bottom..top) 01, B in the bottom scope; op and_modify_or_insert; all stored values and arguments" unwind=5
+// @h tier=thorough bound="depth 2, A present per scope (bottom..top) 01, B in the bottom scope; op and_modify_or_insert; all stored values and arguments" unwind=5 mem=6 reclimit="mahf::state::(registry::)?StateRegistry::<.*>::find(_mut)?::<.*>=4"
 h!(h_c01_and_modify_or_insert_d2_01, 2, [false, true, false], 5, 5);
-// @h tier=thorough bound="depth 2, A present per scope (bottom..top) 01, B in the bottom scope; op or_insert_with; all stored values and arguments" unwind=5
+// @h tier=thorough bound="depth 2, A present per scope (bottom..top) 01, B in the bottom scope; op or_insert_with; all stored values and arguments" unwind=5 mem=6 reclimit="mahf::state::(registry::)?StateRegistry::<.*>::find(_mut)?::<.*>=4"
 h!(h_c01_or_insert_with_d2_01, 2, [false, true, false], 6, 5);
-// @h tier=thorough bound="depth 2, A present per scope (bottom..top) 01, B in the bottom scope; op or_default; all stored values and arguments" unwind=5
+// @h tier=thorough bound="depth 2, A present per scope (bottom..top) 01, B in the bottom scope; op or_default; all stored values and arguments" unwind=5 mem=6 reclimit="mahf::state::(registry::)?StateRegistry::<.*>::find(_mut)?::<.*>=4"
 h!(h_c01_or_default_d2_01, 2, [false, true, false], 7, 5);
-// @h tier=thorough bound="depth 2, A present per scope (bottom..top) 01, B in the bottom scope; op entry_insert; all stored values and arguments" unwind=5
+// @h tier=thorough bound="depth 2, A present per scope (bottom..top) 01, B in the bottom scope; op entry_insert; all stored values and arguments" unwind=5 mem=6 reclimit="mahf::state::(registry::)?StateRegistry::<.*>::find(_mut)?::<.*>=4"
 h!(h_c01_entry_insert_d2_01, 2, [false, true, false], 8, 5);
-// @h tier=thorough bound="depth 2, A present per scope (bottom..top) 01, B in the bottom scope; op entry_remove; all stored values and arguments" unwind=5
+// @h tier=thorough bound="depth 2, A present per scope (bottom..top) 01, B in the bottom scope; op entry_remove; all stored values and arguments" unwind=5 mem=6 reclimit="mahf::state::(registry::)?StateRegistry::<.*>::find(_mut)?::<.*>=4"
 h!(h_c01_entry_remove_d2_01, 2, [false, true, false], 9, 5);
-// @h tier=thorough bound="depth 2, A present per scope (bottom..top) 01, B in the bottom scope; op entry_access; all stored values and arguments" unwind=5
+// @h tier=thorough bound="depth 2, A present per scope (bottom..top) 01, B in the bottom scope; op entry_access; all stored values and arguments" unwind=5 mem=6 reclimit="mahf::state::(registry::)?StateRegistry::<.*>::find(_mut)?::<.*>=4"
 h!(h_c01_entry_access_d2_01, 2, [false, true, false], 10, 5);
-// @h tier=thorough bound="depth 2, A present per scope (bottom..top) 01, B in the bottom scope; op push_scope; all stored values and arguments" unwind=5
+// @h tier=thorough bound="depth 2, A present per scope (bottom..top) 01, B in the bottom scope; op push_scope; all stored values and arguments" unwind=5 mem=6 reclimit="mahf::state::(registry::)?StateRegistry::<.*>::find(_mut)?::<.*>=4"
 h!(h_c01_push_scope_d2_01, 2, [false, true, false], 11, 5);
-// @h tier=thorough bound="depth 2, A present per scope (bottom..top) 01, B in the bottom scope; op and_modify_value; all stored values and arguments" unwind=5
+// @h tier=thorough bound="depth 2, A present per scope (bottom..top) 01, B in the bottom scope; op and_modify_value; all stored values and arguments" unwind=5 mem=6 reclimit="mahf::state::(registry::)?StateRegistry::<.*>::find(_mut)?::<.*>=4"
 h!(h_c01_and_modify_value_d2_01, 2, [false, true, false], 12, 5);
-// @h tier=quick bound="depth 2, A present per scope (bottom..top) 10, B in the bottom scope; op reads; all stored values and arguments" unwind=5
+// @h tier=quick bound="depth 2, A present per scope (bottom..top) 10, B in the bottom scope; op reads; all stored values and arguments" unwind=5 mem=6 reclimit="mahf::state::(registry::)?StateRegistry::<.*>::find(_mut)?::<.*>=4"
 h!(h_c01_reads_d2_10, 2, [true, false, false], 0, 5);
-// @h tier=quick bound="depth 2, A present per scope (bottom..top) 10, B in the bottom scope; op insert; all stored values and arguments" unwind=5
+// @h tier=quick bound="depth 2, A present per scope (bottom..top) 10, B in the bottom scope; op insert; all stored values and arguments" unwind=5 mem=6 reclimit="mahf::state::(registry::)?StateRegistry::<.*>::find(_mut)?::<.*>=4"
 h!(h_c01_insert_d2_10, 2, [true, false, false], 1, 5);
-// @h tier=quick bound="depth 2, A present per scope (bottom..top) 10, B in the bottom scope; op remove; all stored values and arguments" unwind=5
+// @h tier=quick bound="depth 2, A present per scope (bottom..top) 10, B in the bottom scope; op remove; all stored values and arguments" unwind=5 mem=6 reclimit="mahf::state::(registry::)?StateRegistry::<.*>::find(_mut)?::<.*>=4"
 h!(h_c01_remove_d2_10, 2, [true, false, false], 2, 5);
-// @h tier=quick bound="depth 2, A present per scope (bottom..top) 10, B in the bottom scope; op set_value; all stored values and arguments" unwind=5
+// @h tier=quick bound="depth 2, A present per scope (bottom..top) 10, B in the bottom scope; op set_value; all stored values and arguments" unwind=5 mem=6 reclimit="mahf::state::(registry::)?StateRegistry::<.*>::find(_mut)?::<.*>=4"
 h!(h_c01_set_value_d2_10, 2, [true, false, false], 3, 5);
-// @h tier=quick bound="depth 2, A present per scope (bottom..top) 10, B in the bottom scope; op get_mut; all stored values and arguments" unwind=5
+// @h tier=quick bound="depth 2, A present per scope (bottom..top) 10, B in the bottom scope; op get_mut; all stored values and arguments" unwind=5 mem=6 reclimit="mahf::state::(registry::)?StateRegistry::<.*>::find(_mut)?::<.*>=4"
 h!(h_c01_get_mut_d2_10, 2, [true, false, false], 4, 5);
-// @h tier=quick bound="depth 2, A present per scope (bottom..top) 10, B in the bottom scope; op and_modify_or_insert; all stored values and arguments" unwind=5
+// @h tier=quick bound="depth 2, A present per scope (bottom..top) 10, B in the bottom scope; op and_modify_or_insert; all stored values and arguments" unwind=5 mem=6 reclimit="mahf::state::(registry::)?StateRegistry::<.*>::find(_mut)?::<.*>=4"
 h!(h_c01_and_modify_or_insert_d2_10, 2, [true, false, false], 5, 5);
-// @h tier=quick bound="depth 2, A present per scope (bottom..top) 10, B in the bottom scope; op or_insert_with; all stored values and arguments" unwind=5
+// @h tier=quick bound="depth 2, A present per scope (bottom..top) 10, B in the bottom scope; op or_insert_with; all stored values and arguments" unwind=5 mem=6 reclimit="mahf::state::(registry::)?StateRegistry::<.*>::find(_mut)?::<.*>=4"
 h!(h_c01_or_insert_with_d2_10, 2, [true, false, false], 6, 5);
-// @h tier=quick bound="depth 2, A present per scope (bottom..top) 10, B in the bottom scope; op or_default; all stored values and arguments" unwind=5
+// @h tier=quick bound="depth 2, A present per scope (bottom..top) 10, B in the bottom scope; op or_default; all stored values and arguments" unwind=5 mem=6 reclimit="mahf::state::(registry::)?StateRegistry::<.*>::find(_mut)?::<.*>=4"
 h!(h_c01_or_default_d2_10, 2, [true, false, false], 7, 5);
-// @h tier=quick bound="depth 2, A present per scope (bottom..top) 10, B in the bottom scope; op entry_insert; all stored values and arguments" unwind=5
+// @h tier=quick bound="depth 2, A present per scope (bottom..top) 10, B in the bottom scope; op entry_insert; all stored values and arguments" unwind=5 mem=6 reclimit="mahf::state::(registry::)?StateRegistry::<.*>::find(_mut)?::<.*>=4"
 h!(h_c01_entry_insert_d2_10, 2, [true, false, false], 8, 5);
-// @h tier=quick bound="depth 2, A present per scope (bottom..top) 10, B in the bottom scope; op entry_remove; all stored values and arguments" unwind=5
+// @h tier=quick bound="depth 2, A present per scope (bottom..top) 10, B in the bottom scope; op entry_remove; all stored values and arguments" unwind=5 mem=6 reclimit="mahf::state::(registry::)?StateRegistry::<.*>::find(_mut)?::<.*>=4"
 h!(h_c01_entry_remove_d2_10, 2, [true, false, false], 9, 5);
-// @h tier=quick bound="depth 2, A present per scope (bottom..top) 10, B in the bottom scope; op entry_access; all stored values and arguments" unwind=5
+// @h tier=quick bound="depth 2, A present per scope (bottom..top) 10, B in the bottom scope; op entry_access; all stored values and arguments" unwind=5 mem=6 reclimit="mahf::state::(registry::)?StateRegistry::<.*>::find(_mut)?::<.*>=4"
 h!(h_c01_entry_access_d2_10, 2, [true, false, false], 10, 5);
-// @h tier=quick bound="depth 2, A present per scope (bottom..top) 10, B in the bottom scope; op push_scope; all stored values and arguments" unwind=5
+// @h tier=quick bound="depth 2, A present per scope (bottom..top) 10, B in the bottom scope; op push_scope; all stored values and arguments" unwind=5 mem=6 reclimit="mahf::state::(registry::)?StateRegistry::<.*>::find(_mut)?::<.*>=4"
 h!(h_c01_push_scope_d2_10, 2, [true, false, false], 11, 5);
-// @h tier=quick bound="depth 2, A present per scope (bottom..top) 10, B in the bottom scope; op and_modify_value; all stored values and arguments" unwind=5
+// @h tier=quick bound="depth 2, A present per scope (bottom..top) 10, B in the bottom scope; op and_modify_value; all stored values and arguments" unwind=5 mem=6 reclimit="mahf::state::(registry::)?StateRegistry::<.*>::find(_mut)?::<.*>=4"
 h!(h_c01_and_modify_value_d2_10, 2, [true, false, false], 12, 5);
-// @h tier=quick bound="depth 2, A present per scope (bottom..top) 11, B in the bottom scope; op reads; all stored values and arguments" unwind=5
+// @h tier=quick bound="depth 2, A present per scope (bottom..top) 11, B in the bottom scope; op reads; all stored values and arguments" unwind=5 mem=6 reclimit="mahf::state::(registry::)?StateRegistry::<.*>::find(_mut)?::<.*>=4"
 h!(h_c01_reads_d2_11, 2, [true, true, false], 0, 5);
-// @h tier=quick bound="depth 2, A present per scope (bottom..top) 11, B in the bottom scope; op insert; all stored values and arguments" unwind=5
+// @h tier=quick bound="depth 2, A present per scope (bottom..top) 11, B in the bottom scope; op insert; all stored values and arguments" unwind=5 mem=6 reclimit="mahf::state::(registry::)?StateRegistry::<.*>::find(_mut)?::<.*>=4"
 h!(h_c01_insert_d2_11, 2, [true, true, false], 1, 5);
-// @h tier=quick bound="depth 2, A present per scope (bottom..top) 11, B in the bottom scope; op remove; all stored values and arguments" unwind=5
+// @h tier=quick bound="depth 2, A present per scope (bottom..top) 11, B in the bottom scope; op remove; all stored values and arguments" unwind=5 mem=6 reclimit="mahf::state::(registry::)?StateRegistry::<.*>::find(_mut)?::<.*>=4"
 h!(h_c01_remove_d2_11, 2, [true, true, false], 2, 5);
-// @h tier=quick bound="depth 2, A present per scope (bottom..top) 11, B in the bottom scope; op set_value; all stored values and arguments" unwind=5
+// @h tier=quick bound="depth 2, A present per scope (bottom..top) 11, B in the bottom scope; op set_value; all stored values and arguments" unwind=5 mem=6 reclimit="mahf::state::(registry::)?StateRegistry::<.*>::find(_mut)?::<.*>=4"
 h!(h_c01_set_value_d2_11, 2, [true, true, false], 3, 5);
-// @h tier=quick bound="depth 2, A present per scope (bottom..top) 11, B in the bottom scope; op get_mut; all stored values and arguments" unwind=5
+// @h tier=quick bound="depth 2, A present per scope (bottom..top) 11, B in the bottom scope; op get_mut; all stored values and arguments" unwind=5 mem=6 reclimit="mahf::state::(registry::)?StateRegistry::<.*>::find(_mut)?::<.*>=4"
 h!(h_c01_get_mut_d2_11, 2, [true, true, false], 4, 5);
-// @h tier=quick bound="depth 2, A present per scope (bottom..top) 11, B in the bottom scope; op and_modify_or_insert; all stored values and arguments" unwind=5
+// @h tier=quick bound="depth 2, A present per scope (bottom..top) 11, B in the bottom scope; op and_modify_or_insert; all stored values and arguments" unwind=5 mem=6 reclimit="mahf::state::(registry::)?StateRegistry::<.*>::find(_mut)?::<.*>=4"
 h!(h_c01_and_modify_or_insert_d2_11, 2, [true, true, false], 5, 5);
-// @h tier=quick bound="depth 2, A present per scope (bottom..top) 11, B in the bottom scope; op or_insert_with; all stored values and arguments" unwind=5
+// @h tier=quick bound="depth 2, A present per scope (bottom..top) 11, B in the bottom scope; op or_insert_with; all stored values and arguments" unwind=5 mem=6 reclimit="mahf::state::(registry::)?StateRegistry::<.*>::find(_mut)?::<.*>=4"
 h!(h_c01_or_insert_with_d2_11, 2, [true, true, false], 6, 5);
-// @h tier=quick bound="depth 2, A present per scope (bottom..top) 11, B in the bottom scope; op or_default; all stored values and arguments" unwind=5
+// @h tier=quick bound="depth 2, A present per scope (bottom..top) 11, B in the bottom scope; op or_default; all stored values and arguments" unwind=5 mem=6 reclimit="mahf::state::(registry::)?StateRegistry::<.*>::find(_mut)?::<.*>=4"
 h!(h_c01_or_default_d2_11, 2, [true, true, false], 7, 5);
-// @h tier=quick bound="depth 2, A present per scope (bottom..top) 11, B in the bottom scope; op entry_insert; all stored values and arguments" unwind=5
+// @h tier=quick bound="depth 2, A present per scope (bottom..top) 11, B in the bottom scope; op entry_insert; all stored values and arguments" unwind=5 mem=6 reclimit="mahf::state::(registry::)?StateRegistry::<.*>::find(_mut)?::<.*>=4"
 h!(h_c01_entry_insert_d2_11, 2, [true, true, false], 8, 5);
-// @h tier=quick bound="depth 2, A present per scope (bottom..top) 11, B in the bottom scope; op entry_remove; all stored values and arguments" unwind=5
+// @h tier=quick bound="depth 2, A present per scope (bottom..top) 11, B in the bottom scope; op entry_remove; all stored values and arguments" unwind=5 mem=6 reclimit="mahf::state::(registry::)?StateRegistry::<.*>::find(_mut)?::<.*>=4"
 h!(h_c01_entry_remove_d2_11, 2, [true, true, false], 9, 5);
-// @h tier=quick bound="depth 2, A present per scope (bottom..top) 11, B in the bottom scope; op entry_access; all stored values and arguments" unwind=5
+// @h tier=quick bound="depth 2, A present per scope (bottom..top) 11, B in the bottom scope; op entry_access; all stored values and arguments" unwind=5 mem=6 reclimit="mahf::state::(registry::)?StateRegistry::<.*>::find(_mut)?::<.*>=4"
 h!(h_c01_entry_access_d2_11, 2, [true, true, false], 10, 5);
-// @h tier=quick bound="depth 2, A present per scope (bottom..top) 11, B in the bottom scope; op push_scope; all stored values and arguments" unwind=5
+// @h tier=quick bound="depth 2, A present per scope (bottom..top) 11, B in the bottom scope; op push_scope; all stored values and arguments" unwind=5 mem=6 reclimit="mahf::state::(registry::)?StateRegistry::<.*>::find(_mut)?::<.*>=4"
 h!(h_c01_push_scope_d2_11, 2, [true, true, false], 11, 5);
-// @h tier=quick bound="depth 2, A present per scope (bottom..top) 11, B in the bottom scope; op and_modify_value; all stored values and arguments" unwind=5
+// @h tier=quick bound="depth 2, A present per scope (bottom..top) 11, B in the bottom scope; op and_modify_value; all stored values and arguments" unwind=5 mem=6 reclimit="mahf::state::(registry::)?StateRegistry::<.*>::find(_mut)?::<.*>=4"
 h!(h_c01_and_modify_value_d2_11, 2, [true, true, false], 12, 5);
-// @h tier=thorough bound="depth 3, A present per scope (bottom..top) 000, B in the bottom scope; op reads; all stored values and arguments" unwind=6
+// @h tier=thorough bound="depth 3, A present per scope (bottom..top) 000, B in the bottom scope; op reads; all stored values and arguments" unwind=6 mem=6 reclimit="mahf::state::(registry::)?StateRegistry::<.*>::find(_mut)?::<.*>=5"
 h!(h_c01_reads_d3_000, 3, [false, false, false], 0, 6);
-// @h tier=thorough bound="depth 3, A present per scope (bottom..top) 000, B in the bottom scope; op insert; all stored values and arguments" unwind=6
+// @h tier=thorough bound="depth 3, A present per scope (bottom..top) 000, B in the bottom scope; op insert; all stored values and arguments" unwind=6 mem=6 reclimit="mahf::state::(registry::)?StateRegistry::<.*>::find(_mut)?::<.*>=5"
 h!(h_c01_insert_d3_000, 3, [false, false, false], 1, 6);
-// @h tier=thorough bound="depth 3, A present per scope (bottom..top) 000, B in the bottom scope; op remove; all stored values and arguments" unwind=6
+// @h tier=thorough bound="depth 3, A present per scope (bottom..top) 000, B in the bottom scope; op remove; all stored values and arguments" unwind=6 mem=6 reclimit="mahf::state::(registry::)?StateRegistry::<.*>::find(_mut)?::<.*>=5"
 h!(h_c01_remove_d3_000, 3, [false, false, false], 2, 6);
-// @h tier=thorough bound="depth 3, A present per scope (bottom..top) 000, B in the bottom scope; op set_value; all stored values and arguments" unwind=6
+// @h tier=thorough bound="depth 3, A present per scope (bottom..top) 000, B in the bottom scope; op set_value; all stored values and arguments" unwind=6 mem=6 reclimit="mahf::state::(registry::)?StateRegistry::<.*>::find(_mut)?::<.*>=5"
 h!(h_c01_set_value_d3_000, 3, [false, false, false], 3, 6);
-// @h tier=thorough bound="depth 3, A present per scope (bottom..top) 000, B in the bottom scope; op get_mut; all stored values and arguments" unwind=6
+// @h tier=thorough bound="depth 3, A present per scope (bottom..top) 000, B in the bottom scope; op get_mut; all stored values and arguments" unwind=6 mem=6 reclimit="mahf::state::(registry::)?StateRegistry::<.*>::find(_mut)?::<.*>=5"
 h!(h_c01_get_mut_d3_000, 3, [false, false, false], 4, 6);
-// @h tier=thorough bound="depth 3, A present per scope (bottom..top) 000, B in the bottom scope; op and_modify_or_insert; all stored values and arguments" unwind=6
+// @h tier=thorough bound="depth 3, A present per scope (bottom..top) 000, B in the bottom scope; op and_modify_or_insert; all stored values and arguments" unwind=6 mem=6 reclimit="mahf::state::(registry::)?StateRegistry::<.*>::find(_mut)?::<.*>=5"
 h!(h_c01_and_modify_or_insert_d3_000, 3, [false, false, false], 5, 6);
-// @h tier=thorough bound="depth 3, A present per scope (bottom..top) 000, B in the bottom scope; op or_insert_with; all stored values and arguments" unwind=6
+// @h tier=thorough bound="depth 3, A present per scope (bottom..top) 000, B in the bottom scope; op or_insert_with; all stored values and arguments" unwind=6 mem=6 reclimit="mahf::state::(registry::)?StateRegistry::<.*>::find(_mut)?::<.*>=5"
 h!(h_c01_or_insert_with_d3_000, 3, [false, false, false], 6, 6);
-// @h tier=thorough bound="depth 3, A present per scope (bottom..top) 000, B in the bottom scope; op or_default; all stored values and arguments" unwind=6
+// @h tier=thorough bound="depth 3, A present per scope (bottom..top) 000, B in the bottom scope; op or_default; all stored values and arguments" unwind=6 mem=6 reclimit="mahf::state::(registry::)?StateRegistry::<.*>::find(_mut)?::<.*>=5"
 h!(h_c01_or_default_d3_000, 3, [false, false, false], 7, 6);
-// @h tier=thorough bound="depth 3, A present per scope (bottom..top) 000, B in the bottom scope; op entry_insert; all stored values and arguments" unwind=6
+// @h tier=thorough bound="depth 3, A present per scope (bottom..top) 000, B in the bottom scope; op entry_insert; all stored values and arguments" unwind=6 mem=6 reclimit="mahf::state::(registry::)?StateRegistry::<.*>::find(_mut)?::<.*>=5"
 h!(h_c01_entry_insert_d3_000, 3, [false, false, false], 8, 6);
-// @h tier=thorough bound="depth 3, A present per scope (bottom..top) 000, B in the bottom scope; op entry_remove; all stored values and arguments" unwind=6
+// @h tier=thorough bound="depth 3, A present per scope (bottom..top) 000, B in the bottom scope; op entry_remove; all stored values and arguments" unwind=6 mem=6 reclimit="mahf::state::(registry::)?StateRegistry::<.*>::find(_mut)?::<.*>=5"
 h!(h_c01_entry_remove_d3_000, 3, [false, false, false], 9, 6);
-// @h tier=thorough bound="depth 3, A present per scope (bottom..top) 000, B in the bottom scope; op entry_access; all stored values and arguments" unwind=6
+// @h tier=thorough bound="depth 3, A present per scope (bottom..top) 000, B in the bottom scope; op entry_access; all stored values and arguments" unwind=6 mem=6 reclimit="mahf::state::(registry::)?StateRegistry::<.*>::find(_mut)?::<.*>=5"
 h!(h_c01_entry_access_d3_000, 3, [false, false, false], 10, 6);
-// @h tier=thorough bound="depth 3, A present per scope (bottom..top) 000, B in the bottom scope; op push_scope; all stored values and arguments" unwind=6
+// @h tier=thorough bound="depth 3, A present per scope (bottom..top) 000, B in the bottom scope; op push_scope; all stored values and arguments" unwind=6 mem=6 reclimit="mahf::state::(registry::)?StateRegistry::<.*>::find(_mut)?::<.*>=5"
 h!(h_c01_push_scope_d3_000, 3, [false, false, false], 11, 6);
-// @h tier=thorough bound="depth 3, A present per scope (bottom..top) 000, B in the bottom scope; op and_modify_value; all stored values and arguments" unwind=6
+// @h tier=thorough bound="depth 3, A present per scope (bottom..top) 000, B in the bottom scope; op and_modify_value; all stored values and arguments" unwind=6 mem=6 reclimit="mahf::state::(registry::)?StateRegistry::<.*>::find(_mut)?::<.*>=5"
 h!(h_c01_and_modify_value_d3_000, 3, [false, false, false], 12, 6);
-// @h tier=thorough bound="depth 3, A present per scope (bottom..top) 001, B in the bottom scope; op reads; all stored values and arguments" unwind=6
+// @h tier=thorough bound="depth 3, A present per scope (bottom..top) 001, B in the bottom scope; op reads; all stored values and arguments" unwind=6 mem=6 reclimit="mahf::state::(registry::)?StateRegistry::<.*>::find(_mut)?::<.*>=5"
 h!(h_c01_reads_d3_001, 3, [false, false, true], 0, 6);
-// @h tier=thorough bound="depth 3, A present per scope (bottom..top) 001, B in the bottom scope; op insert; all stored values and arguments" unwind=6
+// @h tier=thorough bound="depth 3, A present per scope (bottom..top) 001, B in the bottom scope; op insert; all stored values and arguments" unwind=6 mem=6 reclimit="mahf::state::(registry::)?StateRegistry::<.*>::find(_mut)?::<.*>=5"
 h!(h_c01_insert_d3_001, 3, [false, false, true], 1, 6);
-// @h tier=thorough bound="depth 3, A present per scope (bottom..top) 001, B in the bottom scope; op remove; all stored values and arguments" unwind=6
+// @h tier=thorough bound="depth 3, A present per scope (bottom..top) 001, B in the bottom scope; op remove; all stored values and arguments" unwind=6 mem=6 reclimit="mahf::state::(registry::)?StateRegistry::<.*>::find(_mut)?::<.*>=5"
 h!(h_c01_remove_d3_001, 3, [false, false, true], 2, 6);
-// @h tier=thorough bound="depth 3, A present per scope (bottom..top) 001, B in the bottom scope; op set_value; all stored values and arguments" unwind=6
+// @h tier=thorough bound="depth 3, A present per scope (bottom..top) 001, B in the bottom scope; op set_value; all stored values and arguments" unwind=6 mem=6 reclimit="mahf::state::(registry::)?StateRegistry::<.*>::find(_mut)?::<.*>=5"
 h!(h_c01_set_value_d3_001, 3, [false, false, true], 3, 6);
-// @h tier=thorough bound="depth 3, A present per scope (bottom..top) 001, B in the bottom scope; op get_mut; all stored values and arguments" unwind=6
+// @h tier=thorough bound="depth 3, A present per scope (bottom..top) 001, B in the bottom scope; op get_mut; all stored values and arguments" unwind=6 mem=6 reclimit="mahf::state::(registry::)?StateRegistry::<.*>::find(_mut)?::<.*>=5"
 h!(h_c01_get_mut_d3_001, 3, [false, false, true], 4, 6);
-// @h tier=thorough bound="depth 3, A present per scope (bottom..top) 001, B in the bottom scope; op and_modify_or_insert; all stored values and arguments" unwind=6
+// @h tier=thorough bound="depth 3, A present per scope (bottom..top) 001, B in the bottom scope; op and_modify_or_insert; all stored values and arguments" unwind=6 mem=6 reclimit="mahf::state::(registry::)?StateRegistry::<.*>::find(_mut)?::<.*>=5"
 h!(h_c01_and_modify_or_insert_d3_001, 3, [false, false, true], 5, 6);
-// @h tier=thorough bound="depth 3, A present per scope (bottom..top) 001, B in the bottom scope; op or_insert_with; all stored values and arguments" unwind=6
+// @h tier=thorough bound="depth 3, A present per scope (bottom..top) 001, B in the bottom scope; op or_insert_with; all stored values and arguments" unwind=6 mem=6 reclimit="mahf::state::(registry::)?StateRegistry::<.*>::find(_mut)?::<.*>=5"
 h!(h_c01_or_insert_with_d3_001, 3, [false, false, true], 6, 6);
-// @h tier=thorough bound="depth 3, A present per scope (bottom..top) 001, B in the bottom scope; op or_default; all stored values and arguments" unwind=6
+// @h tier=thorough bound="depth 3, A present per scope (bottom..top) 001, B in the bottom scope; op or_default; all stored values and arguments" unwind=6 mem=6 reclimit="mahf::state::(registry::)?StateRegistry::<.*>::find(_mut)?::<.*>=5"
 h!(h_c01_or_default_d3_001, 3, [false, false, true], 7, 6);
-// @h tier=thorough bound="depth 3, A present per scope (bottom..top) 001, B in the bottom scope; op entry_insert; all stored values and arguments" unwind=6
+// @h tier=thorough bound="depth 3, A present per scope (bottom..top) 001, B in the bottom scope; op entry_insert; all stored values and arguments" unwind=6 mem=6 reclimit="mahf::state::(registry::)?StateRegistry::<.*>::find(_mut)?::<.*>=5"
 h!(h_c01_entry_insert_d3_001, 3, [false, false, true], 8, 6);
-// @h tier=thorough bound="depth 3, A present per scope (bottom..top) 001, B in the bottom scope; op entry_remove; all stored values and arguments" unwind=6
+// @h tier=thorough bound="depth 3, A present per scope (bottom..top) 001, B in the bottom scope; op entry_remove; all stored values and arguments" unwind=6 mem=6 reclimit="mahf::state::(registry::)?StateRegistry::<.*>::find(_mut)?::<.*>=5"
 h!(h_c01_entry_remove_d3_001, 3, [false, false, true], 9, 6);
-// @h tier=thorough bound="depth 3, A present per scope (bottom..top) 001, B in the bottom scope; op entry_access; all stored values and arguments" unwind=6
+// @h tier=thorough bound="depth 3, A present per scope (bottom..top) 001, B in the bottom scope; op entry_access; all stored values and arguments" unwind=6 mem=6 reclimit="mahf::state::(registry::)?StateRegistry::<.*>::find(_mut)?::<.*>=5"
 h!(h_c01_entry_access_d3_001, 3, [false, false, true], 10, 6);
-// @h tier=thorough bound="depth 3, A present per scope (bottom..top) 001, B in the bottom scope; op push_scope; all stored values and arguments" unwind=6
+// @h tier=thorough bound="depth 3, A present per scope (bottom..top) 001, B in the bottom scope; op push_scope; all stored values and arguments" unwind=6 mem=6 reclimit="mahf::state::(registry::)?StateRegistry::<.*>::find(_mut)?::<.*>=5"
 h!(h_c01_push_scope_d3_001, 3, [false, false, true], 11, 6);
-// @h tier=thorough bound="depth 3, A present per scope (bottom..top) 001, B in the bottom scope; op and_modify_value; all stored values and arguments" unwind=6
+// @h tier=thorough bound="depth 3, A present per scope (bottom..top) 001, B in the bottom scope; op and_modify_value; all stored values and arguments" unwind=6 mem=6 reclimit="mahf::state::(registry::)?StateRegistry::<.*>::find(_mut)?::<.*>=5"
 h!(h_c01_and_modify_value_d3_001, 3, [false, false, true], 12, 6);
-// @h tier=thorough bound="depth 3, A present per scope (bottom..top) 010, B in the bottom scope; op reads; all stored values and arguments" unwind=6
+// @h tier=thorough bound="depth 3, A present per scope (bottom..top) 010, B in the bottom scope; op reads; all stored values and arguments" unwind=6 mem=6 reclimit="mahf::state::(registry::)?StateRegistry::<.*>::find(_mut)?::<.*>=5"
 h!(h_c01_reads_d3_010, 3, [false, true, false], 0, 6);
-// @h tier=thorough bound="depth 3, A present per scope (bottom..top) 010, B in the bottom scope; op insert; all stored values and arguments" unwind=6
+// @h tier=thorough bound="depth 3, A present per scope (bottom..top) 010, B in the bottom scope; op insert; all stored values and arguments" unwind=6 mem=6 reclimit="mahf::state::(registry::)?StateRegistry::<.*>::find(_mut)?::<.*>=5"
 h!(h_c01_insert_d3_010, 3, [false, true, false], 1, 6);
-// @h tier=thorough bound="depth 3, A present per scope (bottom..top) 010, B in the bottom scope; op remove; all stored values and arguments" unwind=6
+// @h tier=thorough bound="depth 3, A present per scope (bottom..top) 010, B in the bottom scope; op remove; all stored values and arguments" unwind=6 mem=6 reclimit="mahf::state::(registry::)?StateRegistry::<.*>::find(_mut)?::<.*>=5"
 h!(h_c01_remove_d3_010, 3, [false, true, false], 2, 6);
-// @h tier=thorough bound="depth 3, A present per scope (bottom..top) 010, B in the bottom scope; op set_value; all stored values and arguments" unwind=6
+// @h tier=thorough bound="depth 3, A present per scope (bottom..top) 010, B in the bottom scope; op set_value; all stored values and arguments" unwind=6 mem=6 reclimit="mahf::state::(registry::)?StateRegistry::<.*>::find(_mut)?::<.*>=5"
 h!(h_c01_set_value_d3_010, 3, [false, true, false], 3, 6);
-// @h tier=thorough bound="depth 3, A present per scope (bottom..top) 010, B in the bottom scope; op get_mut; all stored values and arguments" unwind=6
+// @h tier=thorough bound="depth 3, A present per scope (bottom..top) 010, B in the bottom scope; op get_mut; all stored values and arguments" unwind=6 mem=6 reclimit="mahf::state::(registry::)?StateRegistry::<.*>::find(_mut)?::<.*>=5"
 h!(h_c01_get_mut_d3_010, 3, [false, true, false], 4, 6);
-// @h tier=thorough bound="depth 3, A present per scope (bottom..top) 010, B in the bottom scope; op and_modify_or_insert; all stored values and arguments" unwind=6
+// @h tier=thorough bound="depth 3, A present per scope (bottom..top) 010, B in the bottom scope; op and_modify_or_insert; all stored values and arguments" unwind=6 mem=6 reclimit="mahf::state::(registry::)?StateRegistry::<.*>::find(_mut)?::<.*>=5"
 h!(h_c01_and_modify_or_insert_d3_010, 3, [false, true, false], 5, 6);
-// @h tier=thorough bound="depth 3, A present per scope (bottom..top) 010, B in the bottom scope; op or_insert_with; all stored values and arguments" unwind=6
+// @h tier=thorough bound="depth 3, A present per scope (bottom..top) 010, B in the bottom scope; op or_insert_with; all stored values and arguments" unwind=6 mem=6 reclimit="mahf::state::(registry::)?StateRegistry::<.*>::find(_mut)?::<.*>=5"
 h!(h_c01_or_insert_with_d3_010, 3, [false, true, false], 6, 6);
-// @h tier=thorough bound="depth 3, A present per scope (bottom..top) 010, B in the bottom scope; op or_default; all stored values and arguments" unwind=6
+// @h tier=thorough bound="depth 3, A present per scope (bottom..top) 010, B in the bottom scope; op or_default; all stored values and arguments" unwind=6 mem=6 reclimit="mahf::state::(registry::)?StateRegistry::<.*>::find(_mut)?::<.*>=5"
 h!(h_c01_or_default_d3_010, 3, [false, true, false], 7, 6);
-// @h tier=thorough bound="depth 3, A present per scope (bottom..top) 010, B in the bottom scope; op entry_insert; all stored values and arguments" unwind=6
+// @h tier=thorough bound="depth 3, A present per scope (bottom..top) 010, B in the bottom scope; op entry_insert; all stored values and arguments" unwind=6 mem=6 reclimit="mahf::state::(registry::)?StateRegistry::<.*>::find(_mut)?::<.*>=5"
 h!(h_c01_entry_insert_d3_010, 3, [false, true, false], 8, 6);
-// @h tier=thorough bound="depth 3, A present per scope (bottom..top) 010, B in the bottom scope; op entry_remove; all stored values and arguments" unwind=6
+// @h tier=thorough bound="depth 3, A present per scope (bottom..top) 010, B in the bottom scope; op entry_remove; all stored values and arguments" unwind=6 mem=6 reclimit="mahf::state::(registry::)?StateRegistry::<.*>::find(_mut)?::<.*>=5"
 h!(h_c01_entry_remove_d3_010, 3, [false, true, false], 9, 6);
-// @h tier=thorough bound="depth 3, A present per scope (bottom..top) 010, B in the bottom scope; op entry_access; all stored values and arguments" unwind=6
+// @h tier=thorough bound="depth 3, A present per scope (bottom..top) 010, B in the bottom scope; op entry_access; all stored values and arguments" unwind=6 mem=6 reclimit="mahf::state::(registry::)?StateRegistry::<.*>::find(_mut)?::<.*>=5"
 h!(h_c01_entry_access_d3_010, 3, [false, true, false], 10, 6);
-// @h tier=thorough bound="depth 3, A present per scope (bottom..top) 010, B in the bottom scope; op push_scope; all stored values and arguments" unwind=6
+// @h tier=thorough bound="depth 3, A present per scope (bottom..top) 010, B in the bottom scope; op push_scope; all stored values and arguments" unwind=6 mem=6 reclimit="mahf::state::(registry::)?StateRegistry::<.*>::find(_mut)?::<.*>=5"
 h!(h_c01_push_scope_d3_010, 3, [false, true, false], 11, 6);
-// @h tier=thorough bound="depth 3, A present per scope (bottom..top) 010, B in the bottom scope; op and_modify_value; all stored values and arguments" unwind=6
+// @h tier=thorough bound="depth 3, A present per scope (bottom..top) 010, B in the bottom scope; op and_modify_value; all stored values and arguments" unwind=6 mem=6 reclimit="mahf::state::(registry::)?StateRegistry::<.*>::find(_mut)?::<.*>=5"
 h!(h_c01_and_modify_value_d3_010, 3, [false, true, false], 12, 6);
-// @h tier=thorough bound="depth 3, A present per scope (bottom..top) 011, B in the bottom scope; op reads; all stored values and arguments" unwind=6
+// @h tier=thorough bound="depth 3, A present per scope (bottom..top) 011, B in the bottom scope; op reads; all stored values and arguments" unwind=6 mem=6 reclimit="mahf::state::(registry::)?StateRegistry::<.*>::find(_mut)?::<.*>=5"
 h!(h_c01_reads_d3_011, 3, [false, true, true], 0, 6);
-// @h tier=thorough bound="depth 3, A present per scope (bottom..top) 011, B in the bottom scope; op insert; all stored values and arguments" unwind=6
+// @h tier=thorough bound="depth 3, A present per scope (bottom..top) 011, B in the bottom scope; op insert; all stored values and arguments" unwind=6 mem=6 reclimit="mahf::state::(registry::)?StateRegistry::<.*>::find(_mut)?::<.*>=5"
 h!(h_c01_insert_d3_011, 3, [false, true, true], 1, 6);
-// @h tier=thorough bound="depth 3, A present per scope (bottom..top) 011, B in the bottom scope; op remove; all stored values and arguments" unwind=6
+// @h tier=thorough bound="depth 3, A present per scope (bottom..top) 011, B in the bottom scope; op remove; all stored values and arguments" unwind=6 mem=6 reclimit="mahf::state::(registry::)?StateRegistry::<.*>::find(_mut)?::<.*>=5"
 h!(h_c01_remove_d3_011, 3, [false, true, true], 2, 6);
-// @h tier=thorough bound="depth 3, A present per scope (bottom..top) 011, B in the bottom scope; op set_value; all stored values and arguments" unwind=6
+// @h tier=thorough bound="depth 3, A present per scope (bottom..top) 011, B in the bottom scope; op set_value; all stored values and arguments" unwind=6 mem=6 reclimit="mahf::state::(registry::)?StateRegistry::<.*>::find(_mut)?::<.*>=5"
 h!(h_c01_set_value_d3_011, 3, [false, true, true], 3, 6);
-// @h tier=thorough bound="depth 3, A present per scope (bottom..top) 011, B in the bottom scope; op get_mut; all stored values and arguments" unwind=6
+// @h tier=thorough bound="depth 3, A present per scope (bottom..top) 011, B in the bottom scope; op get_mut; all stored values and arguments" unwind=6 mem=6 reclimit="mahf::state::(registry::)?StateRegistry::<.*>::find(_mut)?::<.*>=5"
 h!(h_c01_get_mut_d3_011, 3, [false, true, true], 4, 6);
-// @h tier=thorough bound="depth 3, A present per scope (bottom..top) 011, B in the bottom scope; op and_modify_or_insert; all stored values and arguments" unwind=6
+// @h tier=thorough bound="depth 3, A present per scope (bottom..top) 011, B in the bottom scope; op and_modify_or_insert; all stored values and arguments" unwind=6 mem=6 reclimit="mahf::state::(registry::)?StateRegistry::<.*>::find(_mut)?::<.*>=5"
 h!(h_c01_and_modify_or_insert_d3_011, 3, [false, true, true], 5, 6);
-// @h tier=thorough bound="depth 3, A present per scope (bottom..top) 011, B in the bottom scope; op or_insert_with; all stored values and arguments" unwind=6
+// @h tier=thorough bound="depth 3, A present per scope (bottom..top) 011, B in the bottom scope; op or_insert_with; all stored values and arguments" unwind=6 mem=6 reclimit="mahf::state::(registry::)?StateRegistry::<.*>::find(_mut)?::<.*>=5"
 h!(h_c01_or_insert_with_d3_011, 3, [false, true, true], 6, 6);
-// @h tier=thorough bound="depth 3, A present per scope (bottom..top) 011, B in the bottom scope; op or_default; all stored values and arguments" unwind=6
+// @h tier=thorough bound="depth 3, A present per scope (bottom..top) 011, B in the bottom scope; op or_default; all stored values and arguments" unwind=6 mem=6 reclimit="mahf::state::(registry::)?StateRegistry::<.*>::find(_mut)?::<.*>=5"
 h!(h_c01_or_default_d3_011, 3, [false, true, true], 7, 6);
-// @h tier=thorough bound="depth 3, A present per scope (bottom..top) 011, B in the bottom scope; op entry_insert; all stored values and arguments" unwind=6
+// @h tier=thorough bound="depth 3, A present per scope (bottom..top) 011, B in the bottom scope; op entry_insert; all stored values and arguments" unwind=6 mem=6 reclimit="mahf::state::(registry::)?StateRegistry::<.*>::find(_mut)?::<.*>=5"
 h!(h_c01_entry_insert_d3_011, 3, [false, true, true], 8, 6);
-// @h tier=thorough bound="depth 3, A present per scope (bottom..top) 011, B in the bottom scope; op entry_remove; all stored values and arguments" unwind=6
+// @h tier=thorough bound="depth 3, A present per scope (bottom..top) 011, B in the bottom scope; op entry_remove; all stored values and arguments" unwind=6 mem=6 reclimit="mahf::state::(registry::)?StateRegistry::<.*>::find(_mut)?::<.*>=5"
 h!(h_c01_entry_remove_d3_011, 3, [false, true, true], 9, 6);
-// @h tier=thorough bound="depth 3, A present per scope (bottom..top) 011, B in the bottom scope; op entry_access; all stored values and arguments" unwind=6
+// @h tier=thorough bound="depth 3, A present per scope (bottom..top) 011, B in the bottom scope; op entry_access; all stored values and arguments" unwind=6 mem=6 reclimit="mahf::state::(registry::)?StateRegistry::<.*>::find(_mut)?::<.*>=5"
 h!(h_c01_entry_access_d3_011, 3, [false, true, true], 10, 6);
-// @h tier=thorough bound="depth 3, A present per scope (bottom..top) 011, B in the bottom scope; op push_scope; all stored values and arguments" unwind=6
+// @h tier=thorough bound="depth 3, A present per scope (bottom..top) 011, B in the bottom scope; op push_scope; all stored values and arguments" unwind=6 mem=6 reclimit="mahf::state::(registry::)?StateRegistry::<.*>::find(_mut)?::<.*>=5"
 h!(h_c01_push_scope_d3_011, 3, [false, true, true], 11, 6);
-// @h tier=thorough bound="depth 3, A present per scope (bottom..top) 011, B in the bottom scope; op and_modify_value; all stored values and arguments" unwind=6
+// @h tier=thorough bound="depth 3, A present per scope (bottom..top) 011, B in the bottom scope; op and_modify_value; all stored values and arguments" unwind=6 mem=6 reclimit="mahf::state::(registry::)?StateRegistry::<.*>::find(_mut)?::<.*>=5"
 h!(h_c01_and_modify_value_d3_011, 3, [false, true, true], 12, 6);
-// @h tier=thorough bound="depth 3, A present per scope (bottom..top) 100, B in the bottom scope; op reads; all stored values and arguments" unwind=6
+// @h tier=thorough bound="depth 3, A present per scope (bottom..top) 100, B in the bottom scope; op reads; all stored values and arguments" unwind=6 mem=6 reclimit="mahf::state::(registry::)?StateRegistry::<.*>::find(_mut)?::<.*>=5"
 h!(h_c01_reads_d3_100, 3, [true, false, false], 0, 6);
-// @h tier=thorough bound="depth 3, A present per scope (bottom..top) 100, B in the bottom scope; op insert; all stored values and arguments" unwind=6
+// @h tier=thorough bound="depth 3, A present per scope (bottom..top) 100, B in the bottom scope; op insert; all stored values and arguments" unwind=6 mem=6 reclimit="mahf::state::(registry::)?StateRegistry::<.*>::find(_mut)?::<.*>=5"
 h!(h_c01_insert_d3_100, 3, [true, false, false], 1, 6);
-// @h tier=quick bound="depth 3, A present per scope (bottom..top) 100, B in the bottom scope; op remove; all stored values and arguments" unwind=6
+// @h tier=quick bound="depth 3, A present per scope (bottom..top) 100, B in the bottom scope; op remove; all stored values and arguments" unwind=6 mem=6 reclimit="mahf::state::(registry::)?StateRegistry::<.*>::find(_mut)?::<.*>=5"
 h!(h_c01_remove_d3_100, 3, [true, false, false], 2, 6);
-// @h tier=thorough bound="depth 3, A present per scope (bottom..top) 100, B in the bottom scope; op set_value; all stored values and arguments" unwind=6
+// @h tier=thorough bound="depth 3, A present per scope (bottom..top) 100, B in the bottom scope; op set_value; all stored values and arguments" unwind=6 mem=6 reclimit="mahf::state::(registry::)?StateRegistry::<.*>::find(_mut)?::<.*>=5"
 h!(h_c01_set_value_d3_100, 3, [true, false, false], 3, 6);
-// @h tier=quick bound="depth 3, A present per scope (bottom..top) 100, B in the bottom scope; op get_mut; all stored values and arguments" unwind=6
+// @h tier=quick bound="depth 3, A present per scope (bottom..top) 100, B in the bottom scope; op get_mut; all stored values and arguments" unwind=6 mem=6 reclimit="mahf::state::(registry::)?StateRegistry::<.*>::find(_mut)?::<.*>=5"
 h!(h_c01_get_mut_d3_100, 3, [true, false, false], 4, 6);
-// @h tier=quick bound="depth 3, A present per scope (bottom..top) 100, B in the bottom scope; op and_modify_or_insert; all stored values and arguments" unwind=6
+// @h tier=quick bound="depth 3, A present per scope (bottom..top) 100, B in the bottom scope; op and_modify_or_insert; all stored values and arguments" unwind=6 mem=6 reclimit="mahf::state::(registry::)?StateRegistry::<.*>::find(_mut)?::<.*>=5"
 h!(h_c01_and_modify_or_insert_d3_100, 3, [true, false, false], 5, 6);
-// @h tier=thorough bound="depth 3, A present per scope (bottom..top) 100, B in the bottom scope; op or_insert_with; all stored values and arguments" unwind=6
+// @h tier=thorough bound="depth 3, A present per scope (bottom..top) 100, B in the bottom scope; op or_insert_with; all stored values and arguments" unwind=6 mem=6 reclimit="mahf::state::(registry::)?StateRegistry::<.*>::find(_mut)?::<.*>=5"
 h!(h_c01_or_insert_with_d3_100, 3, [true, false, false], 6, 6);
-// @h tier=thorough bound="depth 3, A present per scope (bottom..top) 100, B in the bottom scope; op or_default; all stored values and arguments" unwind=6
+// @h tier=thorough bound="depth 3, A present per scope (bottom..top) 100, B in the bottom scope; op or_default; all stored values and arguments" unwind=6 mem=6 reclimit="mahf::state::(registry::)?StateRegistry::<.*>::find(_mut)?::<.*>=5"
 h!(h_c01_or_default_d3_100, 3, [true, false, false], 7, 6);
-// @h tier=quick bound="depth 3, A present per scope (bottom..top) 100, B in the bottom scope; op entry_insert; all stored values and arguments" unwind=6
+// @h tier=quick bound="depth 3, A present per scope (bottom..top) 100, B in the bottom scope; op entry_insert; all stored values and arguments" unwind=6 mem=6 reclimit="mahf::state::(registry::)?StateRegistry::<.*>::find(_mut)?::<.*>=5"
 h!(h_c01_entry_insert_d3_100, 3, [true, false, false], 8, 6);
-// @h tier=thorough bound="depth 3, A present per scope (bottom..top) 100, B in the bottom scope; op entry_remove; all stored values and arguments" unwind=6
+// @h tier=thorough bound="depth 3, A present per scope (bottom..top) 100, B in the bottom scope; op entry_remove; all stored values and arguments" unwind=6 mem=6 reclimit="mahf::state::(registry::)?StateRegistry::<.*>::find(_mut)?::<.*>=5"
 h!(h_c01_entry_remove_d3_100, 3, [true, false, false], 9, 6);
-// @h tier=thorough bound="depth 3, A present per scope (bottom..top) 100, B in the bottom scope; op entry_access; all stored values and arguments" unwind=6
+// @h tier=thorough bound="depth 3, A present per scope (bottom..top) 100, B in the bottom scope; op entry_access; all stored values and arguments" unwind=6 mem=6 reclimit="mahf::state::(registry::)?StateRegistry::<.*>::find(_mut)?::<.*>=5"
 h!(h_c01_entry_access_d3_100, 3, [true, false, false], 10, 6);
-// @h tier=thorough bound="depth 3, A present per scope (bottom..top) 100, B in the bottom scope; op push_scope; all stored values and arguments" unwind=6
+// @h tier=thorough bound="depth 3, A present per scope (bottom..top) 100, B in the bottom scope; op push_scope; all stored values and arguments" unwind=6 mem=6 reclimit="mahf::state::(registry::)?StateRegistry::<.*>::find(_mut)?::<.*>=5"
 h!(h_c01_push_scope_d3_100, 3, [true, false, false], 11, 6);
-// @h tier=thorough bound="depth 3, A present per scope (bottom..top) 100, B in the bottom scope; op and_modify_value; all stored values and arguments" unwind=6
+// @h tier=thorough bound="depth 3, A present per scope (bottom..top) 100, B in the bottom scope; op and_modify_value; all stored values and arguments" unwind=6 mem=6 reclimit="mahf::state::(registry::)?StateRegistry::<.*>::find(_mut)?::<.*>=5"
 h!(h_c01_and_modify_value_d3_100, 3, [true, false, false], 12, 6);
-// @h tier=thorough bound="depth 3, A present per scope (bottom..top) 101, B in the bottom scope; op reads; all stored values and arguments" unwind=6
+// @h tier=thorough bound="depth 3, A present per scope (bottom..top) 101, B in the bottom scope; op reads; all stored values and arguments" unwind=6 mem=6 reclimit="mahf::state::(registry::)?StateRegistry::<.*>::find(_mut)?::<.*>=5"
 h!(h_c01_reads_d3_101, 3, [true, false, true], 0, 6);
-// @h tier=thorough bound="depth 3, A present per scope (bottom..top) 101, B in the bottom scope; op insert; all stored values and arguments" unwind=6
+// @h tier=thorough bound="depth 3, A present per scope (bottom..top) 101, B in the bottom scope; op insert; all stored values and arguments" unwind=6 mem=6 reclimit="mahf::state::(registry::)?StateRegistry::<.*>::find(_mut)?::<.*>=5"
 h!(h_c01_insert_d3_101, 3, [true, false, true], 1, 6);
-// @h tier=thorough bound="depth 3, A present per scope (bottom..top) 101, B in the bottom scope; op remove; all stored values and arguments" unwind=6
+// @h tier=thorough bound="depth 3, A present per scope (bottom..top) 101, B in the bottom scope; op remove; all stored values and arguments" unwind=6 mem=6 reclimit="mahf::state::(registry::)?StateRegistry::<.*>::find(_mut)?::<.*>=5"
 h!(h_c01_remove_d3_101, 3, [true, false, true], 2, 6);
-// @h tier=thorough bound="depth 3, A present per scope (bottom..top) 101, B in the bottom scope; op set_value; all stored values and arguments" unwind=6
+// @h tier=thorough bound="depth 3, A present per scope (bottom..top) 101, B in the bottom scope; op set_value; all stored values and arguments" unwind=6 mem=6 reclimit="mahf::state::(registry::)?StateRegistry::<.*>::find(_mut)?::<.*>=5"
 h!(h_c01_set_value_d3_101, 3, [true, false, true], 3, 6);
-// @h tier=thorough bound="depth 3, A present per scope (bottom..top) 101, B in the bottom scope; op get_mut; all stored values and arguments" unwind=6
+// @h tier=thorough bound="depth 3, A present per scope (bottom..top) 101, B in the bottom scope; op get_mut; all stored values and arguments" unwind=6 mem=6 reclimit="mahf::state::(registry::)?StateRegistry::<.*>::find(_mut)?::<.*>=5"
 h!(h_c01_get_mut_d3_101, 3, [true, false, true], 4, 6);
-// @h tier=thorough bound="depth 3, A present per scope (bottom..top) 101, B in the bottom scope; op and_modify_or_insert; all stored values and arguments" unwind=6
+// @h tier=thorough bound="depth 3, A present per scope (bottom..top) 101, B in the bottom scope; op and_modify_or_insert; all stored values and arguments" unwind=6 mem=6 reclimit="mahf::state::(registry::)?StateRegistry::<.*>::find(_mut)?::<.*>=5"
 h!(h_c01_and_modify_or_insert_d3_101, 3, [true, false, true], 5, 6);
-// @h tier=thorough bound="depth 3, A present per scope (bottom..top) 101, B in the bottom scope; op or_insert_with; all stored values and arguments" unwind=6
+// @h tier=thorough bound="depth 3, A present per scope (bottom..top) 101, B in the bottom scope; op or_insert_with; all stored values and arguments" unwind=6 mem=6 reclimit="mahf::state::(registry::)?StateRegistry::<.*>::find(_mut)?::<.*>=5"
 h!(h_c01_or_insert_with_d3_101, 3, [true, false, true], 6, 6);
-// @h tier=thorough bound="depth 3, A present per scope (bottom..top) 101, B in the bottom scope; op or_default; all stored values and arguments" unwind=6
+// @h tier=thorough bound="depth 3, A present per scope (bottom..top) 101, B in the bottom scope; op or_default; all stored values and arguments" unwind=6 mem=6 reclimit="mahf::state::(registry::)?StateRegistry::<.*>::find(_mut)?::<.*>=5"
 h!(h_c01_or_default_d3_101, 3, [true, false, true], 7, 6);
-// @h tier=thorough bound="depth 3, A present per scope (bottom..top) 101, B in the bottom scope; op entry_insert; all stored values and arguments" unwind=6
+// @h tier=thorough bound="depth 3, A present per scope (bottom..top) 101, B in the bottom scope; op entry_insert; all stored values and arguments" unwind=6 mem=6 reclimit="mahf::state::(registry::)?StateRegistry::<.*>::find(_mut)?::<.*>=5"
 h!(h_c01_entry_insert_d3_101, 3, [true, false, true], 8, 6);
-// @h tier=thorough bound="depth 3, A present per scope (bottom..top) 101, B in the bottom scope; op entry_remove; all stored values and arguments" unwind=6
+// @h tier=thorough bound="depth 3, A present per scope (bottom..top) 101, B in the bottom scope; op entry_remove; all stored values and arguments" unwind=6 mem=6 reclimit="mahf::state::(registry::)?StateRegistry::<.*>::find(_mut)?::<.*>=5"
 h!(h_c01_entry_remove_d3_101, 3, [true, false, true], 9, 6);
-// @h tier=thorough bound="depth 3, A present per scope (bottom..top) 101, B in the bottom scope; op entry_access; all stored values and arguments" unwind=6
+// @h tier=thorough bound="depth 3, A present per scope (bottom..top) 101, B in the bottom scope; op entry_access; all stored values and arguments" unwind=6 mem=6 reclimit="mahf::state::(registry::)?StateRegistry::<.*>::find(_mut)?::<.*>=5"
 h!(h_c01_entry_access_d3_101, 3, [true, false, true], 10, 6);
-// @h tier=thorough bound="depth 3, A present per scope (bottom..top) 101, B in the bottom scope; op push_scope; all stored values and arguments" unwind=6
+// @h tier=thorough bound="depth 3, A present per scope (bottom..top) 101, B in the bottom scope; op push_scope; all stored values and arguments" unwind=6 mem=6 reclimit="mahf::state::(registry::)?StateRegistry::<.*>::find(_mut)?::<.*>=5"
 h!(h_c01_push_scope_d3_101, 3, [true, false, true], 11, 6);
-// @h tier=thorough bound="depth 3, A present per scope (bottom..top) 101, B in the bottom scope; op and_modify_value; all stored values and arguments" unwind=6
+// @h tier=thorough bound="depth 3, A present per scope (bottom..top) 101, B in the bottom scope; op and_modify_value; all stored values and arguments" unwind=6 mem=6 reclimit="mahf::state::(registry::)?StateRegistry::<.*>::find(_mut)?::<.*>=5"
 h!(h_c01_and_modify_value_d3_101, 3, [true, false, true], 12, 6);
-// @h tier=thorough bound="depth 3, A present per scope (bottom..top) 110, B in the bottom scope; op reads; all stored values and arguments" unwind=6
+// @h tier=thorough bound="depth 3, A present per scope (bottom..top) 110, B in the bottom scope; op reads; all stored values and arguments" unwind=6 mem=6 reclimit="mahf::state::(registry::)?StateRegistry::<.*>::find(_mut)?::<.*>=5"
 h!(h_c01_reads_d3_110, 3, [true, true, false], 0, 6);
-// @h tier=thorough bound="depth 3, A present per scope (bottom..top) 110, B in the bottom scope; op insert; all stored values and arguments" unwind=6
+// @h tier=thorough bound="depth 3, A present per scope (bottom..top) 110, B in the bottom scope; op insert; all stored values and arguments" unwind=6 mem=6 reclimit="mahf::state::(registry::)?StateRegistry::<.*>::find(_mut)?::<.*>=5"
 h!(h_c01_insert_d3_110, 3, [true, true, false], 1, 6);
-// @h tier=thorough bound="depth 3, A present per scope (bottom..top) 110, B in the bottom scope; op remove; all stored values and arguments" unwind=6
+// @h tier=thorough bound="depth 3, A present per scope (bottom..top) 110, B in the bottom scope; op remove; all stored values and arguments" unwind=6 mem=6 reclimit="mahf::state::(registry::)?StateRegistry::<.*>::find(_mut)?::<.*>=5"
 h!(h_c01_remove_d3_110, 3, [true, true, false], 2, 6);
-// @h tier=thorough bound="depth 3, A present per scope (bottom..top) 110, B in the bottom scope; op set_value; all stored values and arguments" unwind=6
+// @h tier=thorough bound="depth 3, A present per scope (bottom..top) 110, B in the bottom scope; op set_value; all stored values and arguments" unwind=6 mem=6 reclimit="mahf::state::(registry::)?StateRegistry::<.*>::find(_mut)?::<.*>=5"
 h!(h_c01_set_value_d3_110, 3, [true, true, false], 3, 6);
-// @h tier=thorough bound="depth 3, A present per scope (bottom..top) 110, B in the bottom scope; op get_mut; all stored values and arguments" unwind=6
+// @h tier=thorough bound="depth 3, A present per scope (bottom..top) 110, B in the bottom scope; op get_mut; all stored values and arguments" unwind=6 mem=6 reclimit="mahf::state::(registry::)?StateRegistry::<.*>::find(_mut)?::<.*>=5"
 h!(h_c01_get_mut_d3_110, 3, [true, true, false], 4, 6);
-// @h tier=thorough bound="depth 3, A present per scope (bottom..top) 110, B in the bottom scope; op and_modify_or_insert; all stored values and arguments" unwind=6
+// @h tier=thorough bound="depth 3, A present per scope (bottom..top) 110, B in the bottom scope; op and_modify_or_insert; all stored values and arguments" unwind=6 mem=6 reclimit="mahf::state::(registry::)?StateRegistry::<.*>::find(_mut)?::<.*>=5"
 h!(h_c01_and_modify_or_insert_d3_110, 3, [true, true, false], 5, 6);
-// @h tier=thorough bound="depth 3, A present per scope (bottom..top) 110, B in the bottom scope; op or_insert_with; all stored values and arguments" unwind=6
+// @h tier=thorough bound="depth 3, A present per scope (bottom..top) 110, B in the bottom scope; op or_insert_with; all stored values and arguments" unwind=6 mem=6 reclimit="mahf::state::(registry::)?StateRegistry::<.*>::find(_mut)?::<.*>=5"
 h!(h_c01_or_insert_with_d3_110, 3, [true, true, false], 6, 6);
-// @h tier=thorough bound="depth 3, A present per scope (bottom..top) 110, B in the bottom scope; op or_default; all stored values and arguments" unwind=6
+// @h tier=thorough bound="depth 3, A present per scope (bottom..top) 110, B in the bottom scope; op or_default; all stored values and arguments" unwind=6 mem=6 reclimit="mahf::state::(registry::)?StateRegistry::<.*>::find(_mut)?::<.*>=5"
 h!(h_c01_or_default_d3_110, 3, [true, true, false], 7, 6);
-// @h tier=thorough bound="depth 3, A present per scope (bottom..top) 110, B in the bottom scope; op entry_insert; all stored values and arguments" unwind=6
+// @h tier=thorough bound="depth 3, A present per scope (bottom..top) 110, B in the bottom scope; op entry_insert; all stored values and arguments" unwind=6 mem=6 reclimit="mahf::state::(registry::)?StateRegistry::<.*>::find(_mut)?::<.*>=5"
 h!(h_c01_entry_insert_d3_110, 3, [true, true, false], 8, 6);
-// @h tier=thorough bound="depth 3, A present per scope (bottom..top) 110, B in the bottom scope; op entry_remove; all stored values and arguments" unwind=6
+// @h tier=thorough bound="depth 3, A present per scope (bottom..top) 110, B in the bottom scope; op entry_remove; all stored values and arguments" unwind=6 mem=6 reclimit="mahf::state::(registry::)?StateRegistry::<.*>::find(_mut)?::<.*>=5"
 h!(h_c01_entry_remove_d3_110, 3, [true, true, false], 9, 6);
-// @h tier=thorough bound="depth 3, A present per scope (bottom..top) 110, B in the bottom scope; op entry_access; all stored values and arguments" unwind=6
+// @h tier=thorough bound="depth 3, A present per scope (bottom..top) 110, B in the bottom scope; op entry_access; all stored values and arguments" unwind=6 mem=6 reclimit="mahf::state::(registry::)?StateRegistry::<.*>::find(_mut)?::<.*>=5"
 h!(h_c01_entry_access_d3_110, 3, [true, true, false], 10, 6);
-// @h tier=thorough bound="depth 3, A present per scope (bottom..top) 110, B in the bottom scope; op push_scope; all stored values and arguments" unwind=6
+// @h tier=thorough bound="depth 3, A present per scope (bottom..top) 110, B in the bottom scope; op push_scope; all stored values and arguments" unwind=6 mem=6 reclimit="mahf::state::(registry::)?StateRegistry::<.*>::find(_mut)?::<.*>=5"
 h!(h_c01_push_scope_d3_110, 3, [true, true, false], 11, 6);
-// @h tier=thorough bound="depth 3, A present per scope (bottom..top) 110, B in the bottom scope; op and_modify_value; all stored values and arguments" unwind=6
+// @h tier=thorough bound="depth 3, A present per scope (bottom..top) 110, B in the bottom scope; op and_modify_value; all stored values and arguments" unwind=6 mem=6 reclimit="mahf::state::(registry::)?StateRegistry::<.*>::find(_mut)?::<.*>=5"
 h!(h_c01_and_modify_value_d3_110, 3, [true, true, false], 12, 6);
-// @h tier=thorough bound="depth 3, A present per scope (bottom..top) 111, B in the bottom scope; op reads; all stored values and arguments" unwind=6
+// @h tier=thorough bound="depth 3, A present per scope (bottom..top) 111, B in the bottom scope; op reads; all stored values and arguments" unwind=6 mem=6 reclimit="mahf::state::(registry::)?StateRegistry::<.*>::find(_mut)?::<.*>=5"
 h!(h_c01_reads_d3_111, 3, [true, true, true], 0, 6);
-// @h tier=thorough bound="depth 3, A present per scope (bottom..top) 111, B in the bottom scope; op insert; all stored values and arguments" unwind=6
+// @h tier=thorough bound="depth 3, A present per scope (bottom..top) 111, B in the bottom scope; op insert; all stored values and arguments" unwind=6 mem=6 reclimit="mahf::state::(registry::)?StateRegistry::<.*>::find(_mut)?::<.*>=5"
 h!(h_c01_insert_d3_111, 3, [true, true, true], 1, 6);
-// @h tier=quick bound="depth 3, A present per scope (bottom..top) 111, B in the bottom scope; op remove; all stored values and arguments" unwind=6
+// @h tier=quick bound="depth 3, A present per scope (bottom..top) 111, B in the bottom scope; op remove; all stored values and arguments" unwind=6 mem=6 reclimit="mahf::state::(registry::)?StateRegistry::<.*>::find(_mut)?::<.*>=5"
 h!(h_c01_remove_d3_111, 3, [true, true, true], 2, 6);
-// @h tier=thorough bound="depth 3, A present per scope (bottom..top) 111, B in the bottom scope; op set_value; all stored values and arguments" unwind=6
+// @h tier=thorough bound="depth 3, A present per scope (bottom..top) 111, B in the bottom scope; op set_value; all stored values and arguments" unwind=6 mem=6 reclimit="mahf::state::(registry::)?StateRegistry::<.*>::find(_mut)?::<.*>=5"
 h!(h_c01_set_value_d3_111, 3, [true, true, true], 3, 6);
-// @h tier=quick bound="depth 3, A present per scope (bottom..top) 111, B in the bottom scope; op get_mut; all stored values and arguments" unwind=6
+// @h tier=quick bound="depth 3, A present per scope (bottom..top) 111, B in the bottom scope; op get_mut; all stored values and arguments" unwind=6 mem=6 reclimit="mahf::state::(registry::)?StateRegistry::<.*>::find(_mut)?::<.*>=5"
 h!(h_c01_get_mut_d3_111, 3, [true, true, true], 4, 6);
-// @h tier=quick bound="depth 3, A present per scope (bottom..top) 111, B in the bottom scope; op and_modify_or_insert; all stored values and arguments" unwind=6
+// @h tier=quick bound="depth 3, A present per scope (bottom..top) 111, B in the bottom scope; op and_modify_or_insert; all stored values and arguments" unwind=6 mem=6 reclimit="mahf::state::(registry::)?StateRegistry::<.*>::find(_mut)?::<.*>=5"
 h!(h_c01_and_modify_or_insert_d3_111, 3, [true, true, true], 5, 6);
-// @h tier=thorough bound="depth 3, A present per scope (bottom..top) 111, B in the bottom scope; op or_insert_with; all stored values and arguments" unwind=6
+// @h tier=thorough bound="depth 3, A present per scope (bottom..top) 111, B in the bottom scope; op or_insert_with; all stored values and arguments" unwind=6 mem=6 reclimit="mahf::state::(registry::)?StateRegistry::<.*>::find(_mut)?::<.*>=5"
 h!(h_c01_or_insert_with_d3_111, 3, [true, true, true], 6, 6);
-// @h tier=thorough bound="depth 3, A present per scope (bottom..top) 111, B in the bottom scope; op or_default; all stored values and arguments" unwind=6
+// @h tier=thorough bound="depth 3, A present per scope (bottom..top) 111, B in the bottom scope; op or_default; all stored values and arguments" unwind=6 mem=6 reclimit="mahf::state::(registry::)?StateRegistry::<.*>::find(_mut)?::<.*>=5"
 h!(h_c01_or_default_d3_111, 3, [true, true, true], 7, 6);
-// @h tier=quick bound="depth 3, A present per scope (bottom..top) 111, B in the bottom scope; op entry_insert; all stored values and arguments" unwind=6
+// @h tier=quick bound="depth 3, A present per scope (bottom..top) 111, B in the bottom scope; op entry_insert; all stored values and arguments" unwind=6 mem=6 reclimit="mahf::state::(registry::)?StateRegistry::<.*>::find(_mut)?::<.*>=5"
 h!(h_c01_entry_insert_d3_111, 3, [true, true, true], 8, 6);
-// @h tier=thorough bound="depth 3, A present per scope (bottom..top) 111, B in the bottom scope; op entry_remove; all stored values and arguments" unwind=6
+// @h tier=thorough bound="depth 3, A present per scope (bottom..top) 111, B in the bottom scope; op entry_remove; all stored values and arguments" unwind=6 mem=6 reclimit="mahf::state::(registry::)?StateRegistry::<.*>::find(_mut)?::<.*>=5"
 h!(h_c01_entry_remove_d3_111, 3, [true, true, true], 9, 6);
-// @h tier=thorough bound="depth 3, A present per scope (bottom..top) 111, B in the bottom scope; op entry_access; all stored values and arguments" unwind=6
+// @h tier=thorough bound="depth 3, A present per scope (bottom..top) 111, B in the bottom scope; op entry_access; all stored values and arguments" unwind=6 mem=6 reclimit="mahf::state::(registry::)?StateRegistry::<.*>::find(_mut)?::<.*>=5"
 h!(h_c01_entry_access_d3_111, 3, [true, true, true], 10, 6);
-// @h tier=thorough bound="depth 3, A present per scope (bottom..top) 111, B in the bottom scope; op push_scope; all stored values and arguments" unwind=6
+// @h tier=thorough bound="depth 3, A present per scope (bottom..top) 111, B in the bottom scope; op push_scope; all stored values and arguments" unwind=6 mem=6 reclimit="mahf::state::(registry::)?StateRegistry::<.*>::find(_mut)?::<.*>=5"
 h!(h_c01_push_scope_d3_111, 3, [true, true, true], 11, 6);
-// @h tier=thorough bound="depth 3, A present per scope (bottom..top) 111, B in the bottom scope; op and_modify_value; all stored values and arguments" unwind=6
+// @h tier=thorough bound="depth 3, A present per scope (bottom..top) 111, B in the bottom scope; op and_modify_value; all stored values and arguments" unwind=6 mem=6 reclimit="mahf::state::(registry::)?StateRegistry::<.*>::find(_mut)?::<.*>=5"
 h!(h_c01_and_modify_value_d3_111, 3, [true, true, true], 12, 6);
